@@ -425,6 +425,16 @@ def native_db_check(payload):
             n = rnd.choice([2, 3, 7])
             d0 = rnd.choice(days)
             check('every n-th day', Query(start_date=d0, every_nth=n), lambda r: r[1] >= day_ts(d0) and (r[2] - (d0 - epoch).days) % n == 0)
+            # conditions combined (each alone looks fine): a sampling fraction of 1 keeps every instance the other conditions select
+            minday = min(r[2] for r in rows)
+            check('every n-th day counted from the first day of the database', Query(every_nth=n), lambda r: (r[2] - minday) % n == 0)
+            check('every n-th day with a sampling fraction of 1', Query(every_nth=n, sample=1.0), lambda r: (r[2] - minday) % n == 0)
+            check('every n-th day from a start date with a sampling fraction of 1', Query(start_date=d0, every_nth=n, sample=1.0),
+                  lambda r: r[1] >= day_ts(d0) and (r[2] - (d0 - epoch).days) % n == 0)
+            d1 = d0 + dt.timedelta(days=rnd.randint(0, 40))
+            check('filter, both dates, every n-th day and a sampling fraction of 1 together',
+                  Query(Filter(min_distance=lo, max_distance=hi), start_date=d0, end_date=d1, every_nth=n, sample=1.0),
+                  lambda r: lo <= r[3] <= hi and day_ts(d0) <= r[1] < day_ts(d1) + 86400 and (r[2] - (d0 - epoch).days) % n == 0)
             lim, off = rnd.randint(1, 30), rnd.randint(0, 30)
             cases += 1
             got = run(Query(Filter(min_distance=lo), limit=lim, offset=off))
